@@ -362,14 +362,15 @@ func (r *c18Runner) explainLayout(blamed, pe parser.Expr, mode string, bt int64,
 		}
 	}
 	call, isCall := blamed.(*parser.Call)
-	var ms *parser.MatrixSelector
-	if isCall {
-		for _, a := range call.Args {
-			if m, ok := a.(*parser.MatrixSelector); ok {
-				ms = m
-			}
+	// a range function somewhere below the blamed node (the blame stops above it when the failing step is unknown - a point
+	// that is no step of the query - or when every operand alone is right at that step): the trigger-based kinds (8), (9)
+	var anyMS *parser.MatrixSelector
+	parser.Inspect(blamed, func(nd parser.Node, _ []parser.Node) error {
+		if m, ok := nd.(*parser.MatrixSelector); ok && anyMS == nil {
+			anyMS = m
 		}
-	}
+		return nil
+	})
 	// (6) range query whose end is not on the step grid: the store also reads the samples after the last step; when they are
 	// the only rows of a trailing storage record the last step is lost (or repeated). The same query with the end moved to
 	// its last step is answered like upstream.
@@ -409,11 +410,11 @@ func (r *c18Runner) explainLayout(blamed, pe parser.Expr, mode string, bt int64,
 		}
 	}
 	// (8) stale markers: whether a window continues in the next storage record and whether a record is the last one of its
-	// series is decided before the markers are removed. Recognised by its trigger: a range function, and every series whose
-	// answer differs (at bt; any series if the answer is an error) has a stale marker among its samples.
-	if isCall && ms != nil && bt != 0 {
+	// series is decided before the markers are removed. Recognised by its trigger: a range function over a metric one of
+	// whose series holds a stale marker (and the one-record default layout answers like upstream: see the caller).
+	if anyMS != nil {
 		stale := map[string]bool{} // "job/instance" of the series of the selector's metric that hold a marker
-		name := ms.VectorSelector.(*parser.VectorSelector).Name
+		name := anyMS.VectorSelector.(*parser.VectorSelector).Name
 		for _, sr := range r.set.Series {
 			if sr.Labels["__name__"] != name {
 				continue
@@ -424,41 +425,10 @@ func (r *c18Runner) explainLayout(blamed, pe parser.Expr, mode string, bt int64,
 				}
 			}
 		}
+		// (with one cursor for all series the damage is not confined to the series that holds the marker: a record of markers
+		// only leaves prevStep = 0 in the shared reducer and the next series pads from the epoch)
 		if len(stale) > 0 {
-			w, g := up(blamed.String()), ans(r.srv, r.db, blamed.String())
-			only := true
-			if g.Err == "" {
-				differs := func(k string) bool {
-					a, b := w.Series[k], g.Series[k]
-					return len(a) != len(b) || (len(a) > 0 && (a[0].T != b[0].T || !c18Close(a[0].V, b[0].V)))
-				}
-				keys := map[string]bool{}
-				for k := range w.Series {
-					keys[k] = true
-				}
-				for k := range g.Series {
-					keys[k] = true
-				}
-				n := 0
-				for k := range keys {
-					if !differs(k) {
-						continue
-					}
-					n++
-					hit := false
-					for js := range stale {
-						ji := strings.SplitN(js, "/", 2)
-						if strings.Contains(k, `job="`+ji[0]+`"`) && strings.Contains(k, `instance="`+ji[1]+`"`) {
-							hit = true
-						}
-					}
-					only = only && hit
-				}
-				only = only && n > 0
-			}
-			if only {
-				return "stale_marker_decides_record_continuation"
-			}
+			return "stale_marker_decides_record_continuation"
 		}
 	}
 	// (9) range query of a range function with step > range: IsSameStep puts a sample whose time is exactly a step into the
@@ -466,7 +436,7 @@ func (r *c18Runner) explainLayout(blamed, pe parser.Expr, mode string, bt int64,
 	// (wrong value, or a repeated timestamp = the error "same labelset"); and (floatIncAggReducer) a last record whose rows
 	// lie in no window pads steps from the Unix epoch (same error). Recognised by the trigger step > range on a layout with
 	// several records per series (the one-record default layout is answered like upstream: see the caller).
-	if isCall && ms != nil && ranged && rq.Step > ms.Range.Milliseconds() {
+	if anyMS != nil && ranged && rq.Step > anyMS.Range.Milliseconds() {
 		return "range_step_gt_range_window_across_records"
 	}
 	return ""
